@@ -420,6 +420,7 @@ class Molecules:
             how = "diagonal" if nullable else "vertical"
             # empty tables may carry untyped (Null) feature columns, which cannot be
             # stacked with typed ones; they do not contribute any row anyway.
+            features = _fill_missing_features(features, [len(p) for p in pos], how)
             non_empty = [df for df in features if len(df) > 0]
             all_features = pl.concat(non_empty or features[:1], how=how)
         else:
@@ -979,13 +980,18 @@ class Molecules:
             [self.quaternion(), other.quaternion()],
             axis=0,
         )
-        if len(self.features) == 0:
-            feat = other.features
-        elif len(other.features) == 0:
-            feat = self.features
+        how = "diagonal" if nullable else "vertical"
+        feat_self, feat_other = _fill_missing_features(
+            [self.features, other.features], [self.count(), other.count()], how
+        )
+        if len(feat_self) == 0:
+            feat = feat_other
+        elif len(feat_other) == 0:
+            feat = feat_self
         else:
-            how = "diagonal" if nullable else "vertical"
-            feat = pl.concat([self.features, other.features], how=how)
+            feat = pl.concat([feat_self, feat_other], how=how)
+        if len(feat) == 0:
+            feat = None
         return self.__class__(pos, Rotation.from_quat(rot), features=feat)
 
     @overload
@@ -1136,6 +1142,30 @@ class Molecules:
         self._rotator = Rotation.from_quat(rot)
         self._features = feat
         return self
+
+
+def _fill_missing_features(
+    features: list[pl.DataFrame], counts: list[int], how: str
+) -> list[pl.DataFrame]:
+    """Give the molecules that have no feature column at all null-filled features.
+
+    A data frame without columns has no rows either, so that the molecules without
+    features would otherwise not contribute any feature row to the concatenation.
+    """
+    ref = next((df for df in features if len(df) > 0), None)
+    if ref is None:
+        return features
+    out: list[pl.DataFrame] = []
+    for df, n in zip(features, counts):
+        if len(df.columns) == 0 and n > 0:
+            if how != "diagonal":
+                raise ValueError(
+                    "Cannot concatenate molecules with and without features if "
+                    "nullable=False."
+                )
+            df = ref.clear(n)
+        out.append(df)
+    return out
 
 
 def _is_boolean_array(a: Any) -> TypeGuard[NDArray[np.bool_]]:
